@@ -346,6 +346,88 @@ Check xn_serialized_decodes :
 Print Assumptions xn_serialized_decodes.
 
 (* ---------------------------------------------------------------------------------------------
+   the counting loops of the context constructors (ModelNew.v)
+   --------------------------------------------------------------------------------------------- *)
+From ZV.C01 Require Import ModelNew ProofsNew ProofsNew2.
+(* ContextualHuffmanEncoder::new(t, order) for every training text, whatever the BinaryHeap builds (heap_any) and whatever
+   order the HashMaps are iterated in (hm_any): it returns an encoder (no panic below 42.9 M bytes of training), the order
+   field is the one of the constructor that finally ran, every tree agrees with its table, every context index names a
+   tree, and from two bytes of training on every tree of an order-1/2 encoder codes all 256 bytes *)
+Theorem ctx_new_wf :
+  forall heap_of hm, heap_any heap_of -> hm_any hm ->
+  forall order t, order < 3 -> bytes_ok t -> N.of_nat (length t) * 100 < W32 ->
+  exists e, ctx_new heap_of hm order t = Some e /\
+    c_order e = built_order order (length t) /\
+    (t <> [] -> wf_cenc e = true) /\
+    (t = [] -> e = mkC 0 [empty_ht] [(0, 0%nat)]) /\
+    ((2 <= length t)%nat -> order <> 0 -> forall ht, In ht (c_trees e) -> covers_bytes ht).
+Proof. exact ctx_new_wf_proof. Qed.
+Check ctx_new_wf :
+  forall heap_of hm, heap_any heap_of -> hm_any hm ->
+  forall order t, order < 3 -> bytes_ok t -> N.of_nat (length t) * 100 < W32 ->
+  exists e, ctx_new heap_of hm order t = Some e /\
+    c_order e = built_order order (length t) /\
+    (t <> [] -> wf_cenc e = true) /\
+    (t = [] -> e = mkC 0 [empty_ht] [(0, 0%nat)]) /\
+    ((2 <= length t)%nat -> order <> 0 -> forall ht, In ht (c_trees e) -> covers_bytes ht).
+Print Assumptions ctx_new_wf.
+
+(* constructor -> encode -> decode for every training text and every payload, payloads through contexts the training
+   text never showed included: whatever is accepted decodes to itself; with two bytes of training an order-1/2 encoder
+   accepts every payload; an order-1 encoder's interleaved pair is total and lossless for every stream count *)
+Theorem ctx_new_roundtrip :
+  forall heap_of hm, heap_any heap_of -> hm_any hm ->
+  forall order t, order < 3 -> bytes_ok t -> N.of_nat (length t) * 100 < W32 ->
+  exists e, ctx_new heap_of hm order t = Some e /\
+    c_order e = built_order order (length t) /\
+    forall d, bytes_ok d ->
+      (forall b, ctx_encode e d = Some b -> ctx_decode e b (length d) = Some d) /\
+      ((2 <= length t)%nat -> order <> 0 ->
+         exists b, ctx_encode e d = Some b /\ ctx_decode e b (length d) = Some d) /\
+      (c_order e = 1 -> forall nst, (1 <= nst)%nat ->
+         exists b, xn_encode e nst d = Some b /\ xn_decode e nst b (length d) = Some d).
+Proof. exact ctx_new_roundtrip_proof. Qed.
+Check ctx_new_roundtrip :
+  forall heap_of hm, heap_any heap_of -> hm_any hm ->
+  forall order t, order < 3 -> bytes_ok t -> N.of_nat (length t) * 100 < W32 ->
+  exists e, ctx_new heap_of hm order t = Some e /\
+    c_order e = built_order order (length t) /\
+    forall d, bytes_ok d ->
+      (forall b, ctx_encode e d = Some b -> ctx_decode e b (length d) = Some d) /\
+      ((2 <= length t)%nat -> order <> 0 ->
+         exists b, ctx_encode e d = Some b /\ ctx_decode e b (length d) = Some d) /\
+      (c_order e = 1 -> forall nst, (1 <= nst)%nat ->
+         exists b, xn_encode e nst d = Some b /\ xn_decode e nst b (length d) = Some d).
+Print Assumptions ctx_new_roundtrip.
+
+(* the cut of new_order2: the contexts that get a tree are min(1024, number of distinct contexts) many, and none of the
+   contexts left out was seen more often than one that was kept *)
+Theorem order2_top_contexts :
+  forall heap_of hm, heap_any heap_of -> hm_any hm ->
+  forall t, (3 <= length t)%nat -> bytes_ok t -> N.of_nat (length t) * 100 < W32 ->
+  exists e m top rest, ctx_new heap_of hm 2 t = Some e /\ ctx2_counts t = Some m /\
+    NoDup (map fst m) /\ Permutation m (top ++ rest) /\
+    map fst (c_map e) = map fst top /\ length (c_map e) = Nat.min 1024 (length m) /\
+    forall p q, In p top -> In q rest -> sumN (snd q) <= sumN (snd p).
+Proof. exact order2_map_proof. Qed.
+Check order2_top_contexts :
+  forall heap_of hm, heap_any heap_of -> hm_any hm ->
+  forall t, (3 <= length t)%nat -> bytes_ok t -> N.of_nat (length t) * 100 < W32 ->
+  exists e m top rest, ctx_new heap_of hm 2 t = Some e /\ ctx2_counts t = Some m /\
+    NoDup (map fst m) /\ Permutation m (top ++ rest) /\
+    map fst (c_map e) = map fst top /\ length (c_map e) = Nat.min 1024 (length m) /\
+    forall p q, In p top -> In q rest -> sumN (snd q) <= sumN (snd p).
+Print Assumptions order2_top_contexts.
+
+(* the iteration order the generated cases hand to the model is a permutation whatever the real context map lists *)
+Theorem hm_of_permutes :
+  forall order keys l, Permutation (hm_of order keys l) l.
+Proof. exact hm_of_perm_proof. Qed.
+Check hm_of_permutes :
+  forall order keys l, Permutation (hm_of order keys l) l.
+Print Assumptions hm_of_permutes.
+
+(* ---------------------------------------------------------------------------------------------
    rANS / FSE / LZ half.  The import below comes after the Huffman theorems on purpose: the two halves
    define a few names twice (e.g. dec_loop) and the later import shadows the earlier one.
    --------------------------------------------------------------------------------------------- *)
